@@ -588,6 +588,9 @@ func runRT(cfg vsched.Config, sc *RTScn, twice bool) *RTResult {
 			out.Res, out.Err = tr.RunTraceroute(context.Background(), params)
 		}
 		out.ElapsedNs = vsched.Now()
+		// (a thread that only has to return - the sender of a rendezvous that has just completed - is not "outliving the
+		// call": everything runnable at this instant runs before the count; what is still alive then waits for time or input)
+		vtime.Sleep(time.Nanosecond)
 		out.ThreadsLeft = vsched.LiveThreads()
 		if sc.LingerMs > 0 && out.Res != nil {
 			b1 := CallerSerialises(out.Res)
